@@ -36,6 +36,9 @@ def run(repo, rep):
     pm = ProviderModel(repo, model)
     rep.trust('PS3.8 Table 9-10 rows Evt17/Evt18 as transcribed; CPython semantics of threading.Event, select, socket')
     rep.assume('each loop iteration is bounded when no blocking call lacks a timeout (K1); TCP sendall is assumed to make progress')
+    rep.rule('C13.K6', 'every provider has its own ARTIM timer, event queue and stop flag: they are created in the constructor, '
+             'not taken from a default argument or a class attribute (one association stopping its timer must not cancel '
+             'another\'s wait)', 1)
     rep.rule('C13.K1', 'no blocking read without a timeout on any path of the provider loop', 1)
     rep.rule('C13.K2', 'Evt17 is defined for every state but Sta1 and leads to Sta1; Evt18 is defined for Sta2 and Sta13 and '
              'leads to Sta1', 14)
@@ -203,3 +206,25 @@ def run(repo, rep):
     rep.check(not unbounded and calls_dul_kill, 'C13.K4', 'asceprovider:Association.kill:bounded-wait', kf.loc(),
               'grace loop is a bounded for-loop and the provider is then told to stop',
               ('unbounded while loop in kill(); ' if unbounded else '') + ('' if calls_dul_kill else 'dul.kill() never called'))
+
+    # ---------------------------------------------------------------- K6: per-provider timer / queues / flag
+    from ..pitfalls import shared_default_objects
+    from ..sym import is_token
+    init = pm.method('__init__')
+    rep.analysed(init)
+    ic = SymClient(repo, init, event_of=lambda *a: None, hierarchy=pm.hier)
+    io = ic.run(empty_state())
+    p6 = []
+    for s_ in [x for x, _r in io.ret] + list(io.fall):
+        t = s_.field('EXT:self', 'timer')
+        if t is None or not (is_token(t) and 'Timer' in t):
+            p6.append('self.timer is %s, not a Timer created in the constructor' % t)
+        for attr in ('event', 'to_service_user', 'from_service_user', '_is_killed'):
+            v = s_.field('EXT:self', attr)
+            if v is None:
+                continue
+            if v in init.params or not v.endswith(')'):
+                p6.append('self.%s is %s, not an object created in the constructor' % (attr, v))
+    p6 += [x for x in shared_default_objects(repo) if x.startswith('dulprovider:') or x.startswith('fsm:')]
+    rep.check(not p6, 'C13.K6', 'dulprovider:DULServiceProvider.__init__:own-timer', init.loc(),
+              'timer, queues and stop flag are created per provider', '; '.join(sorted(set(p6))))
